@@ -46,7 +46,9 @@ EXPLANATION = (
 ASSUMPTIONS = ['annotations T.Set/FrozenSet/AbstractSet/MutableSet and set()/frozenset()/{...} constructions denote builtin hash-ordered sets',
                'dict, list, OrderedSet, OrderedDict, deque keep insertion order; sorted() over str/int/tuples of those is total',
                'unresolved callees are never assumed order-insensitive: an ordered result handed to one counts as escaping']
-TECHNIQUE = 'annotation-driven set typing + consumer classification with callee summaries (K10), origin flow, CFG must-pass, path enumeration, decision table of __lt__'
+TECHNIQUE = ('annotation-driven set typing + consumer / effect classification with callee summaries (K10); def-use origin flow with a '
+             'sanitiser cut; CFG must-pass; path enumeration with paths pruned by the reaching *constant* definition of the tested flag; '
+             'decision table of __lt__ (sa.tables) with enumeration of the worlds of its atoms and a swapped-pair consistency check')
 
 _CACHE: T.Dict[int, T.Any] = {}
 
@@ -57,6 +59,8 @@ class _NoGC:
         gc.disable()
 
     def __exit__(self, *a: T.Any) -> None:
+        # the parsed trees live until the process ends: keep later collections (incl. the one at exit) from re-traversing them
+        gc.freeze()
         if self.was:
             gc.enable()
 
@@ -289,6 +293,10 @@ def _replace_if_different(ctx: RuleCtx) -> None:
     if len(params) != 2:
         raise Undecided('replace_if_different: expected (dst, dst_tmp)')
     dst, tmp = params
+    # Family note: nothing is executed here.  Paths are enumerated syntactically; a path is discarded only when it tests the bare flag
+    # variable against the truth value of the *literal constant* that reaches the test on that same path (reaching-definition
+    # constant propagation = folding a constant, FAMILY POLICY (a)); the calls on each remaining path are compared by callee name
+    # and normalised argument text (policy (d)).
     pths = pathsmod.enumerate_paths(fn.body, handlers=True)
     n = 0
     seen_equal = seen_diff = False
